@@ -2,7 +2,7 @@
 # Runs every check twice with the same seed (16 workers, then 3 workers under another PYTHONHASHSEED) and compares an
 # order-independent digest of every (configuration, scenario, full history) executed plus the merged counters.
 # usage: selftest_determinism.sh [runs-scale] [ID...]
-cd /verif
+cd "$(dirname "$0")/.."
 scale=${1:-1}; shift
 ids=${@:-C01 C08 C09 C10 C12 C14 C15 C16}
 declare -A RUNS=( [C01]=600 [C08]=600 [C09]=2000 [C10]=900 [C12]=2000 [C14]=3000 [C15]=500 [C16]=60 )
